@@ -342,11 +342,19 @@ def global_gate(R, ctx):
                               elem_of=lambda x, r: _writer_elem(x, r, MLL), source='other_writers')
     R.check('R02.4', f"{fold.path}|max-over-all-writers", ok, f"max(given level, max_log_level() of every writer) on {n} rows",
             f"the global level is not max(spec level, every writer's max_log_level()): {why}", where=fold.loc())
-    # used on build and on change
-    for user in ('logger_handle::WritersHandle::reconfigure', 'logger_handle::WritersHandle::set_new_spec'):
-        ub = f.bodies.get(user)
-        okc = ub is not None and fold.path in cg.reachable([user], spawn=False)
-        R.check('R02.4', f"{user}|uses-fold", okc, "uses the fold over the writers", f"{user} sets the global level without the writers' levels", where=ub.loc() if ub else None)
+    # used on build and on change: at every call of log::set_max_level the level derives from the fold over the writers
+    ngate = 0
+    for x in f.fn_bodies():
+        for bb, t in x.calls():
+            if callee_name(t) != 'log::set_max_level':
+                continue
+            ngate += 1
+            roots = {r_ for (_, r_) in ctx.ip.expand(x.path, ctx.ip.prov(x.path).op_roots(t['args'][0]))}
+            okc = any(r_[0] in ('call', 'via') and r_[1] == fold.path for r_ in roots)
+            R.check('R02.4', f"{root_fn(x.path)}|uses-fold", okc, "the level set derives from the fold over the writers",
+                    f"{x.path} sets the global level without the writers' levels ({sorted(map(str, roots))[:3]})", where=x.loc(bb))
+    if ngate < 2:
+        raise CheckError(f"only {ngate} call sites of log::set_max_level found")
     mb = ctx.body(r'^log_specification::LogSpecification::max_level$')
     ok, why, n = max_over_all(ctx, mb, ['self'], [],
                               base=lambda x: x == ('agg', 'log::LevelFilter', 'Off', ()),
